@@ -146,7 +146,7 @@ for h, t, b, tier in [
 # ---------------------------------------------------------------------------------------------------------------- C01
 add = prop("C01", "c01",
  "Bounded model checking of the real pairwise::Aligner: for each listed shape and clip pattern ALL sequence contents, ALL substitution tables (2x2 on symbol classes, entries in [-4,4], asymmetric and positive mismatch scores included), ALL gap penalties in [-4,0] and ALL enabled clip penalties in [-4,0] are covered by one solver query. (a) No competitor alignment the solver can pick (any sub-ranges, any operation string) scores higher than the reported score; (b) the reported operations and coordinates are walked against x and y and re-scored from the documented model. (a)+(b) => the score is the optimum and the path attains it.",
- "Bound: custom() at shape 1x1 for all 16 enabled/disabled clip patterns with fully symbolic scoring (quick); 1x2 shapes, the restore-after-semiglobal/global history (second call on the same object) and concrete-scheme variants (thorough). " + TRUST + "Not decided: shapes from 2x2 upwards (my combined optimality+validity harness exhausts 24 GB there although the optimality half alone completed at 2x2/3x3 in the design-phase probes), local()/semiglobal() as first call (1x1 took 15-18 min and is covered only through the restore instances), history across different shapes. Outside: scores outside [-4,4]; overflow for astronomically large scores.",
+ "Bound: custom() at shape 1x1 for all 16 enabled/disabled clip patterns with fully symbolic scoring (quick); 1x2 shapes, the restore-after-semiglobal/global history (second call on the same object) and concrete-scheme variants (thorough). " + TRUST + "Not decided: path validity (b) from 2x2 upwards (walking a result Vec of symbolic length exhausts 24 GB; the optimality half (a) alone is decided at 2x2 and 3x3 in the thorough tier), local()/semiglobal() as first call (1x1 took 15-18 min and is covered only through the restore instances), history across different shapes. Outside: scores outside [-4,4]; overflow for astronomically large scores.",
  ["bio::alignment::pairwise::Aligner::{with_capacity_and_scoring,custom,global,semiglobal,local}", "pairwise::{Scoring,MatchFunc for closures,Traceback,TracebackCell}", "bio_types::alignment::Alignment::filter_clip_operations"],
  "see level_note", "see level_note", ["substitution function = 2x2 table indexed by (byte & 1); bytes themselves fully symbolic"])
 for k in range(16):
@@ -155,15 +155,19 @@ add("c01_custom_1x2_k0", 535, "custom(), shape 1x2, no clips (global)", tier="th
 add("c01_fixed_1x2_k15_s1", 535, "custom(), shape 1x2, all clips enabled (symbolic in [-3,0]), concrete asymmetric table [[2,1],[-3,-1]] with gap_open 0, gap_extend -1", tier="thorough", role="custom")
 add("c01_restore_1x2_k4_s0_semi", 1215, "semiglobal() then custom() on the same aligner, shape 1x2, only yclip_prefix enabled: the second call must be optimal+valid under the aligner's OWN clip penalties (wrapper must restore them)", tier="thorough", role="restore")
 add("c01_restore_1x1_k15_s0_global", 715, "global() then custom() on the same aligner, shape 1x1, all clips enabled", tier="thorough", role="restore")
+add("c01_opt_2x2_k0", 910, "custom() optimality only (universal competitor), shape 2x2, no clips, fully symbolic scoring", tier="thorough", role="custom_opt")
+add("c01_opt_2x2_k15", 1030, "custom() optimality only, shape 2x2, all four clips enabled, fully symbolic scoring", tier="thorough", role="custom_opt")
+add("c01_opt_3x3_k15", 1650, "custom() optimality only, shape 3x3, all four clips enabled, fully symbolic scoring", tier="thorough", role="custom_opt")
 add("c01_fixed_1x1_k15_s0", 400, "custom(), 1x1, concrete table [[1,-1],[-1,1]], gaps -2/-1", tier="thorough", role="custom")
 
 # ---------------------------------------------------------------------------------------------------------------- C02
 add = prop("C02", "c02",
- "Bounded model checking of the real banded::Aligner when the band covers the whole matrix (k longer than both sequences, hence no k-mer match): for each listed shape/mode ALL sequence contents and ALL enabled clip penalties are covered by one solver query; the returned path must be a valid alignment of the reported sub-ranges whose re-computed score equals the reported score, no competitor alignment the solver can pick may score higher (= equals the unbanded optimum), and the traceback must terminate (unwinding assertions; a loop of the code under test that does not finish is replayed natively and counts as a violation only if the native run hangs too).",
- "Bound: see the instance list (shapes up to 2x2, concrete substitution table / gap penalties from three schemes, symbolic clip penalties in [-3,0] per enabled end, band width 0). " + TRUST + "Not decided: entry points that hash symbolic k-mers (custom with k <= len, *_with_prehash, custom_with_expanded_matches: FxHashMap with symbolic keys timed out), custom_with_matches/custom_with_match_path (timeout at 2x2 with one match), the MAX_CELLS sentinel (needs > 5*10^6 band cells), fully symbolic scoring (1x1 needs > 20 GB).",
- ["bio::alignment::pairwise::banded::Aligner::{with_capacity_and_scoring,custom,global,semiglobal,local,compute_alignment}", "banded::Band::{create,full_matrix,num_cells}", "bio::alignment::sparse::{find_kmer_matches,hash_kmers} (zero iterations: k > len)", "pairwise::{Traceback,TracebackCell}"],
- "see level_note", "everything listed as not decided; sequences longer than 2", ["scores in the ranges of c01::SCHEMES; clip penalties in [-3,0] or disabled"])
+ "Bounded model checking of the real banded::Aligner with a band that covers the whole matrix (k longer than both sequences), on the degenerate shapes that are within reach: both sequences empty (termination of the traceback: a loop of the code under test that does not finish within the unwinding bound is replayed natively and reported only if the native run hangs too) and x empty / y of length 2 (path validity and re-scored path == reported score, all bytes symbolic).",
+ "On these shapes the unchanged tree VIOLATES the property (two known findings, see KNOWN_FINDINGS.txt and DESIGN.md section 6): the check prints KNOWN-FINDING lines for exactly these and exits 0; any other counterexample is a violation. Nothing is decided for non-empty x: the banded DP at shape 1x1 (fully symbolic or concrete scoring, with or without cover witnesses) ran 8-13 min and then crashed CBMC at the 24 GB cap in every configuration tried (measured, 5 configurations), 2x2 timed out at 20-25 min; entry points that hash symbolic k-mers (FxHashMap) and custom_with_matches timed out; the MAX_CELLS sentinel needs > 5*10^6 band cells. " + TRUST,
+ ["bio::alignment::pairwise::banded::Aligner::{with_capacity_and_scoring,custom,global,compute_alignment}", "banded::Band::{create,full_matrix,num_cells}", "bio::alignment::sparse::{find_kmer_matches,hash_kmers} (zero iterations: k > len)", "pairwise::{Traceback,TracebackCell}"],
+ "shapes 0x0 and 0x2 only", "every shape with a non-empty x; all k-mer backbones; MAX_CELLS", ["scores of c01::SCHEMES[0] for the 0x2 instance; fully symbolic scoring for the 0x0 instances"])
 add("c02_full_global_0x0", 24, "banded global(), both sequences empty, fully symbolic scoring: must terminate with the empty alignment", termination=True, role="banded_empty_both")
+add("c02_fixed_global_0x2_s0", 58, "banded global(), x empty, y of length 2 (all bytes), concrete scheme 0: path valid and score = re-scored path", role="banded_empty_x")
 add("c02_full_custom_0x0_k15", 78, "banded custom(), both sequences empty, all four clips enabled: must terminate", termination=True, role="banded_empty_both")
 
 # ---------------------------------------------------------------------------------------------------------------- C04
